@@ -37,6 +37,9 @@ func init() {
 			{ID: "R04k", Floor: 1, Doc: "a resumed store knows every block of the file: the rescan indexes each section it passes (= R12c)", Run: ruleR12c},
 			{ID: "R04l", Floor: 2, Doc: "the defaults ApplyOptions fills in are the documented constants and nothing else: MaxIndexCidSize becomes DefaultMaxIndexCidSize (2 KiB) and IndexCodec the multihash-sorted codec, whatever the other options say", Run: ruleR04l},
 			{ID: "R04m", Floor: 1, Doc: "the read-write store lists its keys from its index, never by scanning the payload through the embedded read-only store: its backing is not bounded at the end of the payload, so after FinalizeReadOnly a scan runs into the index bytes and lists a key that was never put", Run: ruleR04m},
+			{ID: "R04n", Floor: 1, Doc: "views of the file are positioned at 0, at the pragma size (the header slot), or at an offset taken from the header: no NewOffsetReadSeeker / NewOffsetWriter / io.NewSectionReader of the library is given another constant — the payload a store reads must start where the store's writer put it (Header.DataOffset, which includes the data padding)", Run: ruleR04n},
+			{ID: "R04o", Floor: 9, Doc: "a store does not verify on Get what Put never verified: only the verifying readers hash block contents (= R02a)", Run: ruleR02a},
+			{ID: "R04p", Floor: 8, Doc: "a put writes the whole section: the framing routines write length prefix, CID and data unabridged (= R01b)", Run: ruleR01b},
 		},
 	})
 }
@@ -280,7 +283,7 @@ func sensitiveUses(c *Ctx, fn *ssa.Function) []ssa.Instruction {
 				}
 			}
 			// helpers of the same type that do the touching for us
-			if sc := ci.Common().StaticCallee(); sc != nil && sc.Signature.Recv() != nil && sc.Pkg == fn.Pkg && !isExportedEntry(sc) {
+			if sc := staticTarget(ci.Common()); sc != nil && sc.Signature.Recv() != nil && sc.Pkg == fn.Pkg && !isExportedEntry(sc) {
 				if len(sensitiveUsesShallow(sc)) > 0 || storesGuardedField(sc) {
 					out = append(out, in)
 				}
@@ -408,7 +411,7 @@ func closingInstrs(c *Ctx, fn *ssa.Function, flag [3]string, depth int) []ssa.In
 			}
 		case *ssa.Call:
 			if depth < 3 {
-				if sc := x.Common().StaticCallee(); sc != nil && sc.Blocks != nil && sc.Pkg == fn.Pkg && sc != fn {
+				if sc := staticTarget(x.Common()); sc != nil && sc.Blocks != nil && sc.Pkg == fn.Pkg && sc != fn {
 					if closesOnAllPaths(c, sc, flag, depth+1, nil) {
 						out = append(out, in)
 					} else if establishedBefore(c, fn, x, [][3]string{alt, flag}) && closesOnAllPaths(c, sc, flag, depth+1, &alt) {
@@ -442,7 +445,7 @@ func establishedBefore(c *Ctx, fn *ssa.Function, at ssa.Instruction, flags [][3]
 		if !isCall || in == at {
 			return
 		}
-		sc := ci.Common().StaticCallee()
+		sc := staticTarget(ci.Common())
 		if sc == nil || sc.Blocks == nil || sc.Pkg != fn.Pkg {
 			return
 		}
@@ -835,7 +838,7 @@ func ruleR04h(c *Ctx, r *Report) {
 				if !ok {
 					return
 				}
-				callee := ci.Common().StaticCallee()
+				callee := staticTarget(ci.Common())
 				if callee == nil || len(callee.Blocks) == 0 || callee.Pkg == nil {
 					return
 				}
@@ -912,8 +915,9 @@ func ruleR04i(c *Ctx, r *Report) {
 		key := "option-constructor@" + fnKey(fn)
 		g := fn.AnonFuncs[0]
 		var stores []*ssa.Store
+		live := reach(g, nil, nil) // constant conditions (a captured selector flag) decide their branch
 		eachInstr(g, func(in ssa.Instruction) {
-			if st, ok := in.(*ssa.Store); ok {
+			if st, ok := in.(*ssa.Store); ok && live[st.Block()] {
 				if _, isFA := st.Addr.(*ssa.FieldAddr); isFA {
 					stores = append(stores, st)
 				}
